@@ -23,12 +23,12 @@ def cpu():
 
 def run(rep):
     # 1a. the protocol model: invariants over all histories <= 6
-    res = tlc.run(rep.pid, "LastIndex", MODEL_CFG, timeout=1200, tag="model", workers=8)
+    res = tlc.run(rep.pid, "LastIndex", MODEL_CFG, timeout=3600, tag="model", workers=8)
     rep.add_tlc("LastIndex(model, histories<=6)", res)
     if res.distinct < 10000:
         raise Machinery("LastIndex model explored only %d states" % res.distinct)
     # 1b. the spaces + laws of RegexApi
-    res = tlc.run(rep.pid, "C20", ENUM_CFG, env={"TIER": rep.tier}, timeout=1200, tag="enum")
+    res = tlc.run(rep.pid, "C20", ENUM_CFG, env={"TIER": rep.tier}, timeout=3600, tag="enum")
     rep.add_tlc("C20.Enum+Laws(RegexApi)", res)
     hist = [r for r in res.records if r.get("kind") == "histories"]
     cfgs = {(r["p"], r["fl"]): r for r in res.records if r.get("kind") == "cfg"}
@@ -83,7 +83,7 @@ def histories(rep, hist, cfgs):
             add(cfg, si, ops, rnd.random() < 0.7)
         rep.spaces.append({"space": "seeded random histories, length 5..12", "histories": len(cases) - nexh, "complete": False, "seed": rep.seed})
     t0, c0 = time.time(), cpu()
-    results = engine.run_cases(rep.pid, cases, driver="checks.c20_driver:history_driver", tag="eng_hist")
+    results = engine.run_cases(rep.pid, cases, driver="checks.c20_driver:history_driver", tag="eng_hist", timeout=14400)
     rep.notes["hist_engine_wall_cpu_s"] = [round(time.time() - t0, 1), round(cpu() - c0, 1)]
     recs = []
     for r in results:
@@ -93,7 +93,7 @@ def histories(rep, hist, cfgs):
             continue
         recs.append({"id": r["id"], "p": c["p"], "fl": c["fl"], "s": c["si"], "ops": [k + 1 for k in c["ops"]], "obs": r["obs"]})
     t0, c0 = time.time(), cpu()
-    verdicts, st, tr, wall = tlc.judge(rep.pid, "C20", recs, TRACE_CFG, tag="trace", timeout=3000)
+    verdicts, st, tr, wall = tlc.judge(rep.pid, "C20", recs, TRACE_CFG, tag="trace", timeout=14400)
     rep.notes["hist_judge_wall_cpu_s"] = [round(time.time() - t0, 1), round(cpu() - c0, 1)]
     got = {v["id"]: v for v in verdicts}
     if len(got) != len(recs):
@@ -139,7 +139,7 @@ def string_methods(rep, grid, pats):
                        % (len(pats), len(grid["flags"]), len(grid["subjects"]), len(grid["variants"])), "cases": ncase, "complete": True})
     t0, c0 = time.time(), cpu()
     results = engine.run_cases(rep.pid, [{"id": g["id"], "src": g["src"], "flags": g["flags"], "cases": g["cases"]} for g in groups],
-                               driver="checks.c20_driver:strmethod_driver", tag="eng_sm")
+                               driver="checks.c20_driver:strmethod_driver", tag="eng_sm", timeout=14400)
     rep.notes["sm_engine_wall_cpu_s"] = [round(time.time() - t0, 1), round(cpu() - c0, 1)]
     bycase = {}
     for g in groups:
@@ -152,7 +152,7 @@ def string_methods(rep, grid, pats):
     if len(recs) != ncase:
         raise Machinery("engine returned %d results for %d string-method cases" % (len(recs), ncase))
     t0, c0 = time.time(), cpu()
-    verdicts, st, tr, wall = tlc.judge(rep.pid, "C20", recs, JUDGE_CFG, tag="judge_sm", timeout=3000)
+    verdicts, st, tr, wall = tlc.judge(rep.pid, "C20", recs, JUDGE_CFG, tag="judge_sm", timeout=14400)
     rep.notes["sm_judge_wall_cpu_s"] = [round(time.time() - t0, 1), round(cpu() - c0, 1)]
     got = {v["id"]: v for v in verdicts}
     if len(got) != len(recs):
